@@ -7,6 +7,7 @@ import (
 
 	"oss.terrastruct.com/d2/d2ast"
 	"verif/h/eng"
+	. "verif/h/u"
 )
 
 func init() {
@@ -20,7 +21,7 @@ func init() {
 			fmt.Printf("== %q\nerr: %v\n", src, err)
 			var walk func(n d2ast.Node, d int)
 			walk = func(n d2ast.Node, d int) {
-				if isNilNode(n) {
+				if IsNilNode(n) {
 					return
 				}
 				r := n.GetRange()
@@ -38,11 +39,11 @@ func init() {
 			if u, err := strconv.Unquote(a); err == nil {
 				src = u
 			}
-			g, cfg, err := compile(src)
+			g, cfg, err := Compile(src)
 			fmt.Printf("== %q\nerr: %v\n", src, err)
 			if g != nil {
 				var v any
-				json.Unmarshal([]byte(canon(g, cfg)), &v)
+				json.Unmarshal([]byte(Canon(g, cfg)), &v)
 				b, _ := json.MarshalIndent(v, "", " ")
 				fmt.Println(string(b))
 			}
